@@ -12,6 +12,8 @@ OVERRIDES = ['error', 'fatal', 'xmalloc', 'xreallocarray']
 def _conv(t, v):
     """C expression converting the IL value v (unsigned long long, class CLS[t]) to the callee's parameter type t"""
     c = CLS.get(t, 'l')
+    if t.startswith('struct ') or t.startswith('union '):
+        return '*(%s *)(uintptr_t)%s' % (t, v)          # aggregates are passed as the address of a copy
     if t.endswith('*'):
         return '(%s)(uintptr_t)%s' % (t, v)
     if c == 'w':
@@ -23,7 +25,7 @@ def _conv(t, v):
 
 def _bits(t, v):
     """trace representation of a callee parameter value"""
-    if t.endswith('*'):
+    if t.endswith('*') or t.startswith('struct ') or t.startswith('union '):
         return None          # addresses differ between the two executions: not recorded (the pointed-to memory is compared at the end)
     c = CLS[t]
     if c in 'wl':
@@ -52,15 +54,20 @@ def callee_code(callees):
             body += 'va_end(ap_); '
         body += 'unsigned long long rv_ = tv_rec(%d, %d, %s); (void)rv_; ' % (cid, len(rec), ', '.join(rec4))
         body += ce.get('body', '')
-        if ret != 'void':
+        if ret.startswith('struct ') or ret.startswith('union '):
+            body += ' %s r_; %s return r_;' % (ret, ce['ret_init'])          # ret_init: statements filling r_ from rv_ and the parameters
+        elif ret != 'void':
             body += ' return (%s)%s;' % (ret, '(int)rv_' if CLS.get(ret, 'l') in 'sd' else 'rv_')
         pre.append('%s %s(%s) { %s }' % (ret, ce['name'], sig, body))
         allp = ps + (ex or [])
         conds = ['A.n == %d' % len(allp), 'A.vararg_at == %d' % (len(ps) if ex is not None else -1)]
-        conds += ["A.cls[%d] == '%s'" % (i, CLS.get(t, 'l')) for i, t in enumerate(allp)]
+        conds += ["A.cls[%d] == '%s' && %s" % (i, CLS.get(t, 'l'), ('A.ty[%d] != 0' if (t.startswith('struct ') or t.startswith('union ')) else 'A.ty[%d] == 0') % i) for i, t in enumerate(allp)]
         conds.append("in->class == %s" % ("'%s'" % CLS.get(ret, 'l') if ret != 'void' else '0'))
         call = '%s(%s)' % (ce['name'], ', '.join(_conv(t, 'A.val[%d]' % i) for i, t in enumerate(allp)))
-        if ret == 'void':
+        if ret.startswith('struct ') or ret.startswith('union '):
+            conds.append('in->arg[1] != 0')
+            r = 'static %s buf_%d[%d]; static int nb_%d; if (nb_%d >= %d) PATH_END(); buf_%d[nb_%d] = %s; return (unsigned long long)(uintptr_t)&buf_%d[nb_%d++];' % (ret, cid, 4, cid, cid, 4, cid, cid, call, cid, cid)
+        elif ret == 'void':
             r = '%s; return 0;' % call
         elif CLS.get(ret, 'l') == 's':
             r = 'return il_b32(%s);' % call
@@ -152,6 +159,6 @@ def tv_inst(iname, fname, src, params, ret, fam, pre='', callees='', prelude='',
     return Inst(iname, 'h_tv.c', {}, units=UNITS, overrides=OVERRIDES, native_units=['scan', 'pp'], unwind=unwind, family=fam, timeout=timeout, mem_gb=16, optional=optional, backends=list(backends),
                 unwindset=['mapinit.0:70', 'strlen.0:40', 'strcmp.0:40', 'memcmp.0:70', 'scopeinit.0:16', '__CPROVER_file_local_map_c_hash.0:40',
                            '__CPROVER_file_local_map_c_keyindex.0:66', 'mapfree.0:66', 'mapput.0:66', 'mapput.1:66', 'il_is_stop.0:14', 'il_run.0:130', 'il_run.1:70',
-                           'dupstr.0:40', 'delfunc.0:130', 'delfunc.1:70', 'real_emitfunc.0:12', 'real_emitfunc.1:130', 'real_emitfunc.2:70', 'emitinst.0:10', 'strtoull.0:26', 'strpbrk.0:10', 'strpbrk.1:42'],
+                           'dupstr.0:40', 'delfunc.0:130', 'delfunc.1:70', 'real_emitfunc.0:12', 'real_emitfunc.1:130', 'real_emitfunc.2:70', 'emitinst.0:10', 'strtoull.0:26', 'strpbrk.0:10', 'strpbrk.1:42', 'strtod.0:26', 'strtod.1:6', 'strtod.2:42'],
                 files={'tokens.inc': toks.replace('static void checks(void) {\n}\n', ''), 'ref.inc': ref_inc(fname, src, params, ret, pre, callees, prelude)},
                 bound={'function': src.strip()[:160], 'inputs': 'symbolic', 'precondition': pre})
